@@ -179,6 +179,13 @@ func (t *Tokenizer) Next() Token {
 	}
 }
 
+// drain reads and discards all remaining tokens, which allows
+// the tokenizer goroutine to reach the end of the input and terminate.
+func (t *Tokenizer) drain() {
+	for range t.tok {
+	}
+}
+
 func (t *Tokenizer) getLine() Line {
 	return t.line
 }
